@@ -426,7 +426,8 @@ Qed.
 Definition dres_exc (d : dres) : exc string :=
   match d with
   | DOk s => Ok s | DBounds => Raise TimePointDumperBoundsError | DOverflow => Raise OverflowError
-  | DSyntax => Raise StrftimeSyntaxError | DErr => Raise ValueError | DUnmodelled => Raise Unmodelled end.
+  | DSyntax => Raise StrftimeSyntaxError | DErr => Raise ValueError | DUnmodelled => Raise Unmodelled
+  | DBadInput => Raise BadInputError end.
 
 Lemma gen9_get_dump_format ops fl p : 0 <= f_digits fl ->
   py_TimePoint__get_dump_format ops (rep fl p) = dres_exc (get_dump_format (f_digits fl) p).
@@ -598,3 +599,310 @@ Definition ex_results : list string :=
     sh_exc (py_Dumper_dump o (mkDumper 0) (rep (fl_n 0) ex_p4) "%Y");
     sh_exc (py_TimePoint_strftime o (rep (fl_n 0) ex_p1) "%s|%z");
     sh_exc (py_Dumper_dump o (mkDumper 2) (rep (fl_n 0) ex_p1) "CCYY-MM-DDThh:mm+99:00") ].
+
+(* ------------------------------------------------------------------ strftime *)
+(* the items of REC_SPLIT_STRFTIME_DIRECTIVE.split as the model's literal / directive items *)
+Definition to_fitems (l : list string) : list fitem :=
+  flat_map (fun it => if py_is_directive it then [FDir it]
+                      else if String.eqb it "" then [] else [FLit it]) l.
+Definition flush9 (c : string) : list fitem := if String.eqb c "" then [] else [FLit c].
+
+Lemma is_word9_eq c : is_word9 c = is_word c.
+Proof. reflexivity. Qed.
+Lemma str_app_assoc (a b c : string) : ((a ++ b) ++ c)%string = (a ++ b ++ c)%string.
+Proof. induction a as [|x a IH]; [reflexivity|]. cbn [append]. rewrite IH. reflexivity. Qed.
+Lemma str_app_nil (a : string) : (a ++ "")%string = a.
+Proof. induction a as [|x a IH]; [reflexivity|]. cbn [append]. rewrite IH. reflexivity. Qed.
+
+(* a literal run under construction never becomes a directive token *)
+Definition safe9 (cur s : string) : Prop :=
+  py_is_directive cur = false /\
+  (cur = "%" -> match s with String b _ => is_word9 b = false | EmptyString => True end).
+
+Lemma dir_app_pct cur : py_is_directive (cur ++ "%") = false.
+Proof.
+  destruct cur as [|a [|b [|c r]]]; try reflexivity.
+  - cbn. destruct a as [[] [] [] [] [] [] [] []]; reflexivity.
+  - cbn [append]. unfold py_is_directive.
+    destruct a as [[] [] [] [] [] [] [] []]; try reflexivity.
+  - cbn [append]. unfold py_is_directive.
+    destruct a as [[] [] [] [] [] [] [] []]; try reflexivity.
+Qed.
+Lemma dir_app_char cur a r : safe9 cur (String a r) -> Ascii.eqb a "%" = false ->
+  py_is_directive (cur ++ String a "") = false.
+Proof.
+  intros [D P] NA. destruct cur as [|x [|y [|z t]]].
+  - cbn. destruct a as [[] [] [] [] [] [] [] []]; reflexivity.
+  - cbn [append]. unfold py_is_directive.
+    destruct (Ascii.eqb_spec x "%") as [->|NX].
+    + apply (P eq_refl).
+    + destruct x as [[] [] [] [] [] [] [] []]; try reflexivity. contradiction NX. reflexivity.
+  - cbn [append]. unfold py_is_directive. destruct x as [[] [] [] [] [] [] [] []]; reflexivity.
+  - cbn [append]. unfold py_is_directive. destruct x as [[] [] [] [] [] [] [] []]; reflexivity.
+Qed.
+
+Lemma to_fitems_lit c : py_is_directive c = false -> to_fitems [c] = flush9 c.
+Proof. intro H. unfold to_fitems, flush9. cbn [flat_map]. rewrite H, app_nil_r. reflexivity. Qed.
+
+Lemma to_fitems_cons x l : to_fitems (x :: l) = (to_fitems [x] ++ to_fitems l)%list.
+Proof. unfold to_fitems. cbn [flat_map]. rewrite app_nil_r. reflexivity. Qed.
+
+Lemma split_items : forall n s cur, (String.length s <= n)%nat -> safe9 cur s ->
+  to_fitems (strftime_split s cur) = split_fmt s cur false.
+Proof.
+  induction n as [|n IH]; intros s cur L S.
+  - destruct s; [|cbn in L; lia]. cbn [strftime_split split_fmt]. apply to_fitems_lit, S.
+  - destruct s as [|a r]; [cbn [strftime_split split_fmt]; apply to_fitems_lit, S|].
+    cbn [String.length] in L. cbn [strftime_split split_fmt].
+    destruct (Ascii.eqb a "%") eqn:A.
+    + apply Ascii.eqb_eq in A. subst a.
+      destruct r as [|b r'].
+      * cbn [split_fmt]. apply to_fitems_lit, dir_app_pct.
+      * cbn [split_fmt]. change (is_word b) with (is_word9 b). destruct (is_word9 b) eqn:W.
+        -- rewrite (to_fitems_cons cur), (to_fitems_cons (String "%" (String b ""))).
+           rewrite (to_fitems_lit cur (proj1 S)).
+           assert (D : to_fitems [String "%" (String b "")] = [FDir (String "%" (String b ""))]).
+           { unfold to_fitems. cbn [flat_map py_is_directive]. rewrite W. reflexivity. }
+           rewrite D. rewrite (IH r' ""); [reflexivity | cbn [String.length] in L; lia |].
+           split; [reflexivity | discriminate].
+        -- (* "%" followed by a non-word character: the "%" joins the literal *)
+           assert (S' : safe9 (cur ++ "%") (String b r')).
+           { split; [apply dir_app_pct | intros _; exact W]. }
+           rewrite (IH (String b r') (cur ++ "%")%string); [| lia | exact S'].
+           cbn [split_fmt]. destruct (Ascii.eqb b "%") eqn:B.
+           ++ reflexivity.
+           ++ rewrite str_app_assoc. reflexivity.
+    + assert (S' : safe9 (cur ++ String a "") r).
+      { split; [eapply dir_app_char; eassumption|].
+        intro E. exfalso. destruct cur as [|x t]; cbn [append] in E.
+        - injection E as ->. discriminate A.
+        - destruct t; discriminate E. }
+      apply IH; [lia | exact S'].
+Qed.
+
+Theorem strftime_split_model fmt : to_fitems (py_strftime_split fmt) = split_format fmt "".
+Proof.
+  unfold py_strftime_split, split_format. apply (split_items (String.length fmt)); [lia|].
+  split; [reflexivity | discriminate].
+Qed.
+
+From Iso Require Import Proofs.StrftimeSpec.
+
+Lemma for_items (body : list dtok * list string -> string -> exc (list dtok * list string)) :
+  (forall e ps it, body (e, ps) it =
+     if py_is_directive it
+     then match lookup_dir it STRFTIME_TABLE with
+          | Some (dt, dp, _) => Ok ((e ++ dt)%list, (ps ++ dp)%list)
+          | None => Raise StrftimeSyntaxError end
+     else Ok ((e ++ lit_tmpl it)%list, ps)) ->
+  forall items e ps,
+  py_for items body (e, ps) =
+  match build_d STRFTIME_TABLE (to_fitems items) with
+  | Some (t, q) => Ok ((e ++ t)%list, (ps ++ q)%list)
+  | None => Raise StrftimeSyntaxError end.
+Proof.
+  intros Hb. induction items as [|it r IH]; intros e ps.
+  - cbn. rewrite !app_nil_r. reflexivity.
+  - cbn [py_for]. rewrite Hb, to_fitems_cons. unfold to_fitems at 1. cbn [flat_map]. rewrite app_nil_r.
+    destruct (py_is_directive it).
+    + cbn [app build_d]. destruct (lookup_dir it STRFTIME_TABLE) as [[[dt dp] pt]|]; [|reflexivity].
+      cbn [ebind]. rewrite IH. destruct (build_d STRFTIME_TABLE (to_fitems r)) as [[t q]|]; [|reflexivity].
+      rewrite !app_assoc. reflexivity.
+    + cbn [ebind]. rewrite IH. unfold lit_tmpl. destruct (String.eqb it "").
+      * cbn [app]. rewrite app_nil_r. reflexivity.
+      * cbn [app build_d]. destruct (build_d STRFTIME_TABLE (to_fitems r)) as [[t q]|]; [|reflexivity].
+        rewrite <- app_assoc. reflexivity.
+Qed.
+
+Definition strftime_conv (md : mode) (p : tp) : option tp :=
+  match tdate p with
+  | Wk _ _ _ => match to_calendar_date md (tdate p) with Some d => Some (with_date p d) | None => None end
+  | _ => Some p end.
+
+Theorem gen9_strftime md fuel fl p ned fmt :
+  match build_d STRFTIME_TABLE (split_format fmt "") with
+  | None => py_Dumper_strftime (mops md fuel) (mkDumper ned) (rep fl p) fmt = Raise StrftimeSyntaxError
+  | Some (tmpl, props) =>
+    match strftime_conv md p with
+    | None => py_Dumper_strftime (mops md fuel) (mkDumper ned) (rep fl p) fmt = Raise ValueError
+    | Some q =>
+      month_ok q ->
+      (Z.to_nat (if qeqb (tod_hour (ttod q)) 24 then tick_bound md q else 0) <= fuel)%nat ->
+      exists q', tp_equiv q' (normalised md q) /\
+        py_Dumper_strftime (mops md fuel) (mkDumper ned) (rep fl p) fmt =
+        py_Dumper__dump_expression_with_properties (mops md fuel) (mkDumper ned) (rep fl q') tmpl props None
+    end
+  end.
+Proof.
+  assert (R : forall m : exc string, (t <- m ;; Ok t) = m) by (intros [x|e]; reflexivity).
+  unfold py_Dumper_strftime. code9_helpers.
+  match goal with |- context [py_for _ ?body _] =>
+    assert (Hb : forall e ps it, body (e, ps) it =
+       if py_is_directive it
+       then match lookup_dir it STRFTIME_TABLE with
+            | Some (dt, dp, _) => Ok ((e ++ dt)%list, (ps ++ dp)%list)
+            | None => Raise StrftimeSyntaxError end
+       else Ok ((e ++ lit_tmpl it)%list, ps))
+  end.
+  { intros e ps it. cbv beta iota. destruct (py_is_directive it); [|reflexivity].
+    ops9. unfold translate_token. destruct (lookup_dir it STRFTIME_TABLE) as [[[dt dp] pt]|]; reflexivity. }
+  rewrite (for_items _ Hb), strftime_split_model. clear Hb.
+  destruct (build_d STRFTIME_TABLE (split_format fmt "")) as [[tmpl props]|]; [|reflexivity].
+  cbn [ebind lit_tmpl String.eqb app]. rewrite gen9_truncated. cbn [ebind].
+  rewrite gen9_get_is_week_date. cbn [ebind]. unfold strftime_conv. ops9.
+  assert (N : forall q, month_ok q ->
+     (Z.to_nat (if qeqb (tod_hour (ttod q)) 24 then tick_bound md q else 0) <= fuel)%nat ->
+     exists q', tp_equiv q' (normalised md q) /\
+       lift4 (py_TimePoint__normalised fuel (cal_of md) (rep fl q)) = Ok (rep fl q')).
+  { intros q M F. destruct (returns_tp_elim _ _ _ (gen4_normalised md fl q q fuel (tp_equiv_refl q) M F)) as (q' & E & T).
+    exists q'. split; [exact T|]. rewrite E. reflexivity. }
+  destruct (tdate p) eqn:D.
+  1,2: intros M F; destruct (N p M F) as (q' & T & E); exists q'; split; [exact T|];
+       rewrite E; cbn [ebind]; apply R.
+  rewrite gen4_to_calendar_date, D.
+  destruct (to_calendar_date md (Wk y w d)) as [c|]; [|reflexivity].
+  cbn [lift4 ebind]. intros M F. destruct (N _ M F) as (q' & T & E). exists q'. split; [exact T|].
+  rewrite E. cbn [ebind]. apply R.
+Qed.
+
+(* ------------------------------------------------------------------ _dump_expression_with_properties, all branches *)
+(* the model's first stage (Model/Dump.v dump_with: p1) and zone stage (p2) *)
+Definition conv9 (md : mode) (props : list string) (p : tp) : option tp :=
+  let hasp := fun k => mem k props in
+  if hasp "week_of_year" || hasp "day_of_week" then
+    if negb (hasp "month_of_year" || hasp "day_of_month" || hasp "day_of_year")
+    then match to_week_date md (tdate p) with Some d => Some (with_date p d) | None => None end
+    else Some p
+  else if (match tdate p with Wk _ _ _ => true | _ => false end) &&
+          (hasp "month_of_year" || hasp "day_of_month" || hasp "day_of_year")
+  then match to_calendar_date md (tdate p) with Some d => Some (with_date p d) | None => None end
+  else Some p.
+Definition zone9 (md : mode) (q : tp) (cz : option (Z * Z)) : option tp :=
+  match cz with None => Some q | Some (h, m) => to_time_zone md q (mkZone h m) end.
+Definition zone_fuel (md : mode) (q : tp) (cz : option (Z * Z)) (fuel : nat) : Prop :=
+  match cz with
+  | None => True
+  | Some (h, m) => (Z.to_nat (tp_add_bound md q (zone_diff (mkZone h m) (tzone q))) <= fuel)%nat
+  end.
+(* what the property loop and the final `expression % property_map` compute on the state rep fl r' *)
+Definition loop_result (md : mode) (fuel : nat) (fl : flags) (ned : Z) (tmpl : list dtok) (props : list string)
+  (r' : tp) (m : exc string) : Prop :=
+  forall gv, (forall name, In name props -> py_TimePoint_getattr (mops md fuel) (rep fl r') name = Ok (gv name)) ->
+  m = if year_bad ned (date_year (tdate r')) props then Raise TimePointDumperBoundsError
+      else py_render tmpl (add_props gv props []).
+
+Lemma year_rep md fuel fl r : py_TimePoint_year (mops md fuel) (rep fl r) = Ok (Some (date_year (tdate r))).
+Proof. destruct r as [[y m d|y d|y w d] [h mi s|h mi|h] z]; ev9; reflexivity. Qed.
+
+Lemma loop_part (r : tp) ned tmpl props gv (body : pydict -> string -> exc pydict) :
+  (forall acc name, In name props ->
+     body acc name = if trig ned (date_year (tdate r)) props name then Raise TimePointDumperBoundsError
+                     else Ok (py_dict_set acc name (gv name))) ->
+  (st <- py_for props body [] ;; t <- py_render tmpl st ;; Ok t) =
+  if year_bad ned (date_year (tdate r)) props then Raise TimePointDumperBoundsError
+  else py_render tmpl (add_props gv props []).
+Proof.
+  intro Hb. rewrite (for_props body (trig ned (date_year (tdate r)) props) gv props [] Hb), existsb_trig.
+  fold (year_bad ned (date_year (tdate r)) props).
+  destruct (year_bad ned (date_year (tdate r)) props); [reflexivity|]. cbn [ebind].
+  destruct (py_render tmpl (add_props gv props [])); reflexivity.
+Qed.
+
+(* discharges the hypothesis of loop_part for the body the translator emitted *)
+Ltac body9 GV P :=
+  let acc := fresh "acc" in let name := fresh "name" in let Hin := fresh "Hin" in
+  intros acc name Hin; cbv beta; rewrite (GV name Hin); cbn [ebind d_num_expanded_year_digits];
+  rewrite ?year_rep, ?P; cbn [ebind need]; unfold trig, truthy_Z;
+  repeat (match goal with
+          | |- context [ebind (if ?c then _ else _) _] => destruct c eqn:?
+          | |- context [need (if ?c then _ else _)] => destruct c eqn:?
+          | |- context [is_none (if ?c then _ else _)] => destruct c eqn:?
+          end; cbn [ebind need is_none negb d_num_expanded_year_digits]; rewrite ?year_rep, ?P; cbn [ebind need is_none negb]);
+  match goal with |- context [Z.abs ?y <=? ?M] => rewrite <- (abs_range y M) end;
+  (destruct (String.eqb_spec name "century") as [->|?];
+   [ change (String.eqb "century" "expanded_year_digits") with false; cbn [andb orb negb]
+   | cbn [andb orb negb]; destruct (String.eqb name "expanded_year_digits"); cbn [andb orb negb] ]);
+  repeat match goal with |- context [if ?c then _ else _] => destruct c eqn:?; cbn [andb orb negb] in * end;
+  try reflexivity; try discriminate; try congruence;
+  repeat match goal with
+         | H : ?c = true, H' : context [?c] |- _ => lazymatch H' with H => fail | _ => rewrite H in H' end
+         | H : ?c = false, H' : context [?c] |- _ => lazymatch H' with H => fail | _ => rewrite H in H' end
+         end; cbn [negb andb orb] in *; try discriminate;
+  repeat match goal with
+         | H : context [mem "expanded_year_digits" ?pr] |- _ =>
+           destruct (mem "expanded_year_digits" pr); cbn [negb andb orb] in *
+         | H : context [negb (?n =? 0)] |- _ => destruct (n =? 0); cbn [negb andb orb] in *
+         | H : context [_ || (?n =? 0)] |- _ => destruct (n =? 0); cbn [negb andb orb] in *
+         end;
+  try congruence; try discriminate.
+
+Theorem gen9_dump_expression md fuel fl p ned tmpl props cz : 0 <= ned ->
+  let code := py_Dumper__dump_expression_with_properties (mops md fuel) (mkDumper ned) (rep fl p) tmpl props cz in
+  match conv9 md props p with
+  | None => code = Raise ValueError
+  | Some q =>
+    if match cz with Some (h, m) => negb (valid_zone (mkZone h m)) | None => false end
+    then code = Raise BadInputError
+    else match zone9 md q cz with
+         | None => True
+         | Some r => month_ok q -> zone_fuel md q cz fuel ->
+                     exists r', tp_equiv r' r /\ loop_result md fuel fl ned tmpl props r' code
+         end
+  end.
+Proof.
+  intros Hn code. subst code.
+  assert (P : py_pow 10 (ned + 4) = Ok (10 ^ (ned + 4))).
+  { unfold py_pow. destruct (ned + 4 <? 0) eqn:E; [lia|reflexivity]. }
+  (* the zone stage and the loop, from any point X the first stage produces *)
+  assert (ZS : forall X (k : pyTimePoint -> exc string),
+     (forall r', loop_result md fuel fl ned tmpl props r' (k (rep fl r'))) ->
+     let c := (if negb (is_none cz)
+               then if opt_eqb zz_eqb cz (Some (0, 0))
+                    then t <- T_to_utc (mops md fuel) (rep fl X) ;; k t
+                    else t13 <- need cz ;; t14 <- need cz ;;
+                         t15 <- Z_make (mops md fuel) (let '(a, _) := t13 in a) (let '(_, b) := t14 in b) ;;
+                         t16 <- T_to_time_zone (mops md fuel) (rep fl X) t15 ;; k t16
+               else k (rep fl X)) in
+     if match cz with Some (h, m) => negb (valid_zone (mkZone h m)) | None => false end
+     then c = Raise BadInputError
+     else match zone9 md X cz with
+          | None => True
+          | Some r => month_ok X -> zone_fuel md X cz fuel ->
+                      exists r', tp_equiv r' r /\ loop_result md fuel fl ned tmpl props r' c
+          end).
+  { intros X k K c. subst c. destruct cz as [[h m]|]; cbn [is_none negb zone9 zone_fuel].
+    2:{ intros _ _. exists X. split; [apply tp_equiv_refl | apply K]. }
+    cbn [opt_eqb need ebind]. unfold zz_eqb. cbn [fst snd]. ops9.
+    destruct ((h =? 0) && (m =? 0)) eqn:U.
+    - apply andb_true_iff in U. destruct U as [Uh Um]. apply Z.eqb_eq in Uh. apply Z.eqb_eq in Um. subst h m.
+      change (negb (valid_zone (mkZone 0 0))) with false. cbv iota.
+      destruct (to_time_zone md X (mkZone 0 0)) as [r|] eqn:TZ; [|exact I].
+      intros M F.
+      destruct (returns_tp_elim _ _ _ (gen4_to_utc md fl X X fuel r (tp_equiv_refl X) M TZ F)) as (r' & E & T).
+      rewrite E. cbn [lift4 ebind]. exists r'. split; [exact T | apply K].
+    - unfold zone_make. destruct (valid_zone (mkZone h m)) eqn:V; cbn [negb ebind]; [|reflexivity].
+      destruct (to_time_zone md X (mkZone h m)) as [r|] eqn:TZ; [|exact I].
+      intros M F.
+      destruct (returns_tp_elim _ _ _ (gen4_to_time_zone md fl X X (mkZone h m) fuel r (tp_equiv_refl X) M TZ F))
+        as (r' & E & T).
+      change (mkTimeZone h m false) with (rep_zone (mkZone h m)). rewrite E. cbn [lift4 ebind].
+      exists r'. split; [exact T | apply K]. }
+  unfold py_Dumper__dump_expression_with_properties. code9_helpers. cbn [ebind].
+  rewrite gen9_truncated. cbn [ebind is_none negb].
+  rewrite ?gen9_get_is_week_date. cbn [ebind]. unfold conv9.
+  repeat match goal with
+  | |- context [if ?c then _ else _] =>
+    match c with
+    | context [mem] => destruct c eqn:?; cbn [negb andb orb] in *; try discriminate
+    | match tdate p with _ => _ end => destruct c eqn:?; cbn [negb andb orb] in *; try discriminate
+    end
+  end.
+  all: ops9; rewrite ?gen4_to_week_date, ?gen4_to_calendar_date.
+  all: try match goal with
+           | |- context [to_week_date ?m ?d] => destruct (to_week_date m d); cbn [lift4 ebind]
+           | |- context [to_calendar_date ?m ?d] => destruct (to_calendar_date m d); cbn [lift4 ebind]
+           end.
+  all: try reflexivity.
+  all: apply ZS; intros r' gv GV; cbv beta; apply loop_part; body9 GV P.
+Qed.
+
